@@ -67,6 +67,34 @@ def starts(tier):
     return out
 
 
+def assigned_starts():
+    """Start states reached through a switch followed by an assignment (literal, expression, variable,
+    the register's own value, a colour read back from the light): the state the *next* switch starts from."""
+    out = []
+    bases = {'logical': ['hue 120 saturation 80 brightness 80 kelvin 2700 duration 1.5 time 1.5',
+                         'hue 0 saturation 0 brightness 50 kelvin 2700 duration 1.5 time 1.5'],
+             'raw': ['units raw hue 21845 saturation 52428 brightness 52428 kelvin 2700 duration 1500 time 1500'],
+             'rgb': ['units rgb red 90 green 40 blue 10 kelvin 2700 duration 1.5 time 1.5']}
+    regs_of = {'logical': (('hue', 200), ('saturation', 25), ('brightness', 40), ('duration', 3), ('time', 2)),
+               'raw': (('hue', 40000), ('saturation', 16384), ('brightness', 26214), ('duration', 3000), ('time', 2000)),
+               'rgb': (('red', 20), ('green', 45), ('blue', 70), ('duration', 3), ('time', 2))}
+    for m0 in MODES:
+        for base in bases[m0]:
+            for m1 in MODES:
+                for reg, val in regs_of[m1]:
+                    forms = ['%s %s' % (reg, fmt(val)),
+                             '%s {%s / 2}' % (reg, reg),
+                             '%s {%s + 1}' % (reg, fmt(val)),
+                             'assign v %s %s v' % (fmt(val), reg),
+                             'assign v {%s / 2} %s v' % (reg, reg)]
+                    for f in forms:
+                        out.append((m1, '%s units %s %s' % (base, m1, f)))
+                out.append((m1, '%s units %s get "a"' % (base, m1)))
+                out.append((m1, '%s units %s define r with x begin %s x end r 30'
+                            % (base, m1, {'logical': 'brightness', 'raw': 'brightness', 'rgb': 'green'}[m1])))
+    return out
+
+
 def chains(maxlen):
     for n in range(1, maxlen + 1):
         for c in itertools.product(MODES, repeat=n):
@@ -111,8 +139,8 @@ def check_pair(w, mode, regs, chain):
     for r in (ra, rb):
         if not r.accepted or r.abort or r.raised:
             return ('units-run-problem', text, repr((r.errors, r.abort, r.raised)))
-    sa = [e for e in ra.trace if e[0] == 'dev']
-    sb = [e for e in rb.trace if e[0] == 'dev']
+    sa = [e for e in ra.trace if e[0] == 'dev' and not str(e[2]).startswith('get')]
+    sb = [e for e in rb.trace if e[0] == 'dev' and not str(e[2]).startswith('get')]
     if len(sa) != 1 or len(sb) != 1:
         return ('units-run-problem', text, 'device events %r / %r' % (sa, sb))
     through_rgb = 'rgb' in chain or mode == 'rgb'
@@ -161,8 +189,11 @@ def _worker(rank, n, tier):
     maxlen = 3 if tier == 'quick' else 4
     idx = 0
     chain_list = list(chains(maxlen))
-    for mode, regs in starts(tier):
-        for chain in chain_list:
+    short = list(chains(2))
+    work = [(m, r, c) for m, r in starts(tier) for c in chain_list] + \
+           [(m, r, c) for m, r in assigned_starts() for c in short]
+    for mode, regs, chain in work:
+        if True:
             idx += 1
             if idx % n != rank:
                 continue
@@ -198,9 +229,11 @@ def run(tier, seed):
         'distinct_nontrivial': n_pairs,
         'rule': 'pairs of executions (with and without the chain of units statements) for every start state of the grid '
                 '(hue 0..360 step 7.5 x saturation x brightness; raw boundary values cubed; rgb percentages cubed; time/duration '
-                'sets) x every chain of <=%d units statements; distinct_nontrivial = pairs' % (3 if tier == 'quick' else 4),
+                'sets) x every chain of <=%d units statements; start states reached by a switch followed by an assignment '
+                '(literal / expression / variable / parameter / get) x every chain of <=2; distinct_nontrivial = pairs' % (3 if tier == 'quick' else 4),
         'exhaustive': True,
         'start_states': len(starts(tier)),
+        'start_states_after_switch_and_assignment': len(assigned_starts()),
         'chains': len(list(chains(3 if tier == 'quick' else 4))),
         'samples': ['hue 7.5 saturation 12.5 brightness 37.5 kelvin 2700 duration 1.5 time 1.5 ... units raw ... units rgb ... set "a" wait'],
     }
